@@ -35,6 +35,50 @@ Check C15_payload :
   forall a b raw f l r,
   i64_ok a -> i64_ok b -> payload_check a b raw = Ok (f, l, r) ->
   a < b /\ f = a + 1 /\ l = b /\ i64_ok f /\ i64_ok l /\ f <= l /\ conv_shards raw = Some r.
+Check C15_latest_wins :
+  forall pre post k a b raw known tok s,
+  Forall op_i64 (pre ++ Learn k a b raw known :: post) ->
+  run (pre ++ Learn k a b raw known :: post) = Some s ->
+  spec_payload_ok a b raw = true -> a < tok <= b ->
+  forallb (fun o => negb (accepted_overlap k (a + 1) b o)) post = true ->
+  lookup s k tok = option_map e_reps (spec_maintain_all k post (spec_entry_of a b raw known)).
+Check C15_stale_none :
+  forall pre post k a b raw known tok s0 t s,
+  Forall op_i64 (pre ++ Learn k a b raw known :: post) ->
+  run pre = Some s0 -> lookup_tablet s0 k tok = Some t ->
+  spec_payload_ok a b raw = true -> ~ (a < tok <= b) ->
+  ranges_overlap (a + 1) b (t_first t) (t_last t) = true ->
+  forallb (fun o => negb (covering_learn k tok o)) post = true ->
+  run (pre ++ Learn k a b raw known :: post) = Some s ->
+  lookup s k tok = None.
+Check C15_never_learnt :
+  forall hist k tok s,
+  Forall op_i64 hist -> run hist = Some s ->
+  forallb (fun o => negb (covering_learn k tok o)) hist = true -> lookup s k tok = None.
+Check C15_maint_clean :
+  forall hist kss removed current recreated s k tok t,
+  Forall op_i64 hist -> run (hist ++ [Maintain kss removed current recreated]) = Some s ->
+  lookup_tablet s k tok = Some t ->
+  keep_table kss k = true /\ t_failed t = None /\
+  (forall r, In r (r_all (t_reps t)) -> memN (host (fst r)) removed = false) /\
+  (forall r n', In r (r_all (t_reps t)) -> find_node recreated (host (fst r)) = Some n' -> fst r = n').
+Check C15_flags :
+  forall hist s,
+  Forall op_i64 hist -> run hist = Some s ->
+  (forall k tt t, find_table s k = Some tt -> tt_flag tt = false -> In t (tt_list tt) -> t_failed t = None) /\
+  (i_flag s = false -> forall k tt, find_table s k = Some tt -> tt_flag tt = false).
+Check C15_present :
+  forall hist s k,
+  Forall op_i64 hist -> Forall op_maps_ok hist -> run hist = Some s ->
+  is_some (find_table s k) = spec_present hist k.
+Check C15_bsearch :
+  forall l x, tablets_inv l ->
+  partition_point_bs (fun t => t_last t <? x) l = partition_point (fun t => t_last t <? x) l /\
+  partition_point_bs (fun t => t_first t <=? x) l = partition_point (fun t => t_first t <=? x) l.
+Check C15_no_stale_nodes :
+  forall known0 h s k tok t r,
+  Forall op_i64 (cluster_ops known0 h) -> run (cluster_ops known0 h) = Some s ->
+  lookup_tablet s k tok = Some t -> In r (r_all (t_reps t)) -> In (fst r) (cluster_known known0 h).
 Print Assumptions C15_no_panic.
 Print Assumptions C15_inv.
 Print Assumptions C15_every_step.
@@ -45,3 +89,11 @@ Print Assumptions C15_lookup_covers.
 Print Assumptions C15_dc.
 Print Assumptions C15_dc_spec.
 Print Assumptions C15_payload.
+Print Assumptions C15_latest_wins.
+Print Assumptions C15_stale_none.
+Print Assumptions C15_never_learnt.
+Print Assumptions C15_maint_clean.
+Print Assumptions C15_flags.
+Print Assumptions C15_present.
+Print Assumptions C15_bsearch.
+Print Assumptions C15_no_stale_nodes.
